@@ -209,6 +209,11 @@ func (h *histState) inputsIntact() string {
 			return fmt.Sprintf("patch text buffer %d was written to", i+1)
 		}
 	}
+	for k, n := range histNative {
+		if fmt.Sprintf("%+v", *n) != histNativeSnap[k] {
+			return fmt.Sprintf("the shared ApplyOptions value %d was modified", k)
+		}
+	}
 	for i, p := range h.decoded {
 		if patchSignature(p) != h.patchSig[i] {
 			return fmt.Sprintf("the shared decoded Patch %d was modified", i+1)
@@ -217,7 +222,11 @@ func (h *histState) inputsIntact() string {
 	return ""
 }
 
-var histOpts = map[int]lib.Opts{1: {Neg: true, Esc: true}, 2: {Allow: true, Ensure: true}}
+var histOpts = map[int]lib.Opts{1: {Neg: true, Esc: true}, 2: {Allow: true, Ensure: true}, 3: {Neg: true, Esc: true, Limit: 12}}
+
+// ONE options value per id, shared by every call of the run (and by every goroutine): caller-owned, never to be modified
+var histNative = map[int]lib.NativeOpts{1: histOpts[1].Native(), 2: histOpts[2].Native(), 3: histOpts[3].Native()}
+var histNativeSnap = map[int]string{1: fmt.Sprintf("%+v", *histNative[1]), 2: fmt.Sprintf("%+v", *histNative[2]), 3: fmt.Sprintf("%+v", *histNative[3])}
 
 type callOutcome struct {
 	out  []byte
@@ -403,9 +412,9 @@ func (e *engine) execCallUnguarded(c *histCall) (r callOutcome) {
 			return
 		}
 		if c.API == "Apply" {
-			r.out, r.err = p.ApplyWithOptions(h.docs[c.A-1].buf, histOpts[c.O].Native())
+			r.out, r.err = p.ApplyWithOptions(h.docs[c.A-1].buf, histNative[c.O])
 		} else {
-			r.out, r.err = p.ApplyIndentWithOptions(h.docs[c.A-1].buf, "  ", histOpts[c.O].Native())
+			r.out, r.err = p.ApplyIndentWithOptions(h.docs[c.A-1].buf, "  ", histNative[c.O])
 		}
 	case "DecodePatch":
 		_, err := lib.DecodePatch(h.ptexts[c.A-1].buf)
